@@ -400,3 +400,88 @@ func VerifHeaderParse(d []byte, p int, dl int, l int) {}
 //@     invariant firstIdx <= i && i <= lastIdx && idx == i - firstIdx && i == firstIdx + #iter
 //@     invariant forall k int :: {r[k]} 0 <= k && k < idx ==> r[k] == beU32(options[firstIdx + k].Value, min(len(options[firstIdx + k].Value), 4))
 //@     decreases lastIdx - i
+//
+// ---- typed setters: the value is copied into the caller's buffer, the list edited by Set/Add ------
+//
+//@ func (Options) SetBytes(buf []byte, id OptionID, data []byte) (r Options, n int, err error)
+//@   requires sortedOpts(options) && len(options) < 281474976710655
+//@   modifies buf[0 : min(len(buf), len(data))], options[0 : cap(options)]
+//@   witness f = Set.f
+//@   witness l = Set.l
+//@   ensures [too-small] len(buf) < len(data) ==> err == ErrTooSmall && n == len(data) && r == options
+//@   ensures [too-long] len(buf) >= len(data) && id == 11 && len(data) > 255 ==> err == ErrInvalidValueLength && n == -1 && r == options
+//@   ensures [unchanged-on-error] err != nil ==> (forall i int :: {r[i].ID} 0 <= i && i < len(options) ==> r[i] == old(options[i])) && bytesEqOld(buf, buf)
+//@   ensures [ok] len(buf) >= len(data) && !(id == 11 && len(data) > 255) ==> err == nil && n == len(data) && bytesEqOld(buf[0 : n], data)
+//@   ensures [run-bounds] err == nil ==> 0 <= f && f <= l && l <= len(options)
+//@   ensures [run-smaller] err == nil ==> forall i int :: {old(options[i].ID)} 0 <= i && i < len(options) ==> ((i < f) <==> old(options[i].ID) < id)
+//@   ensures [run-larger] err == nil ==> forall i int :: {old(options[i].ID)} 0 <= i && i < len(options) ==> ((i >= l) <==> old(options[i].ID) > id)
+//@   ensures [len] err == nil ==> len(r) == f + 1 + (len(options) - l)
+//@   ensures [before] err == nil ==> forall i int :: {r[i].ID} 0 <= i && i < f ==> r[i] == old(options[i])
+//@   ensures [set] err == nil ==> r[f].ID == id && r[f].Value == buf[0 : len(data)]
+//@   ensures [after] err == nil ==> forall i int :: {r[i].ID} f < i && i < len(r) ==> r[i] == old(options[i - f - 1 + l])
+//
+//@ func (Options) AddBytes(buf []byte, id OptionID, data []byte) (r Options, n int, err error)
+//@   requires sortedOpts(options) && len(options) < 281474976710655
+//@   modifies buf[0 : min(len(buf), len(data))], options[0 : cap(options)]
+//@   witness p = Add.p
+//@   ensures [too-small] len(buf) < len(data) ==> err == ErrTooSmall && n == len(data) && r == options
+//@   ensures [too-long] len(buf) >= len(data) && id == 11 && len(data) > 255 ==> err == ErrInvalidValueLength && n == -1 && r == options
+//@   ensures [unchanged-on-error] err != nil ==> (forall i int :: {r[i].ID} 0 <= i && i < len(options) ==> r[i] == old(options[i])) && bytesEqOld(buf, buf)
+//@   ensures [ok] len(buf) >= len(data) && !(id == 11 && len(data) > 255) ==> err == nil && n == len(data) && bytesEqOld(buf[0 : n], data)
+//@   ensures [len] err == nil ==> len(r) == len(options) + 1 && 0 <= p && p <= len(options)
+//@   ensures [position] err == nil ==> forall i int :: {old(options[i].ID)} 0 <= i && i < len(options) ==> ((i < p) <==> old(options[i].ID) <= id)
+//@   ensures [before] err == nil ==> forall i int :: {r[i].ID} 0 <= i && i < p ==> r[i] == old(options[i])
+//@   ensures [inserted] err == nil ==> r[p].ID == id && r[p].Value == buf[0 : len(data)]
+//@   ensures [after] err == nil ==> forall i int :: {r[i].ID} p < i && i < len(r) ==> r[i] == old(options[i - 1])
+//
+//@ func (Options) SetUint32(buf []byte, id OptionID, value uint32) (r Options, n int, err error)
+//@   requires sortedOpts(options) && len(options) < 281474976710655
+//@   modifies buf[0 : min(len(buf), u32Len(value))], options[0 : cap(options)]
+//@   witness f = Set.f
+//@   witness l = Set.l
+//@   ensures [too-small] len(buf) < u32Len(value) ==> err == ErrTooSmall && n == u32Len(value) && r == options && (forall i int :: {r[i].ID} 0 <= i && i < len(options) ==> r[i] == old(options[i]))
+//@   ensures [ok] len(buf) >= u32Len(value) ==> err == nil && n == u32Len(value) && beU32(buf, n) == value
+//@   ensures [run-bounds] err == nil ==> 0 <= f && f <= l && l <= len(options)
+//@   ensures [run-smaller] err == nil ==> forall i int :: {old(options[i].ID)} 0 <= i && i < len(options) ==> ((i < f) <==> old(options[i].ID) < id)
+//@   ensures [run-larger] err == nil ==> forall i int :: {old(options[i].ID)} 0 <= i && i < len(options) ==> ((i >= l) <==> old(options[i].ID) > id)
+//@   ensures [len] err == nil ==> len(r) == f + 1 + (len(options) - l)
+//@   ensures [before] err == nil ==> forall i int :: {r[i].ID} 0 <= i && i < f ==> r[i] == old(options[i])
+//@   ensures [set] err == nil ==> r[f].ID == id && r[f].Value == buf[0 : n]
+//@   ensures [after] err == nil ==> forall i int :: {r[i].ID} f < i && i < len(r) ==> r[i] == old(options[i - f - 1 + l])
+//
+//@ func (Options) AddUint32(buf []byte, id OptionID, value uint32) (r Options, n int, err error)
+//@   requires sortedOpts(options) && len(options) < 281474976710655
+//@   modifies buf[0 : min(len(buf), u32Len(value))], options[0 : cap(options)]
+//@   witness p = Add.p
+//@   ensures [too-small] len(buf) < u32Len(value) ==> err == ErrTooSmall && n == u32Len(value) && r == options && (forall i int :: {r[i].ID} 0 <= i && i < len(options) ==> r[i] == old(options[i]))
+//@   ensures [ok] len(buf) >= u32Len(value) ==> err == nil && n == u32Len(value) && beU32(buf, n) == value
+//@   ensures [len] err == nil ==> len(r) == len(options) + 1 && 0 <= p && p <= len(options)
+//@   ensures [position] err == nil ==> forall i int :: {old(options[i].ID)} 0 <= i && i < len(options) ==> ((i < p) <==> old(options[i].ID) <= id)
+//@   ensures [before] err == nil ==> forall i int :: {r[i].ID} 0 <= i && i < p ==> r[i] == old(options[i])
+//@   ensures [inserted] err == nil ==> r[p].ID == id && r[p].Value == buf[0 : n]
+//@   ensures [after] err == nil ==> forall i int :: {r[i].ID} p < i && i < len(r) ==> r[i] == old(options[i - 1])
+//
+// ResetOptionsTo: the list becomes a copy of `in` (values copied back to back into buf).
+// On ErrTooSmall nothing may have changed (error atomicity) and n is the total size needed.
+//
+//@ spec rec sumLens(o Options, k int) int = ite(k <= 0, 0, sumLens(o, k-1) + len(o[k-1].Value))
+//
+//@ func (Options) ResetOptionsTo(buf []byte, in Options) (r Options, n int, err error)
+//@   requires sortedOpts(in) && len(in) <= 16384 && valuesDisjoint(buf, in) && distinctObjects(in, options)
+//@   modifies buf[0 : len(buf)], options[0 : cap(options)]
+//@   ensures [size] n == sumLens(in, len(in)) && 0 <= n
+//@   ensures [fits-iff] (err == nil) <==> sumLens(in, len(in)) <= len(buf)
+//@   ensures [err-kind] err != nil ==> err == ErrTooSmall && r == options
+//@   ensures [error-atomic] err != nil ==> (forall i int :: {options[i].ID} 0 <= i && i < len(options) ==> options[i] == old(options[i])) && bytesEqOld(buf, buf)
+//@   ensures [copied] err == nil ==> len(r) == len(in) && (forall j int :: {r[j].ID} 0 <= j && j < len(in) ==> r[j].ID == in[j].ID && r[j].Value == buf[sumLens(in, j) : sumLens(in, j + 1)] && bytesEqOld(r[j].Value, in[j].Value))
+//@   loop 0:
+//@     modifies buf[0 : len(buf)], options[0 : cap(options)]
+//@     invariant 0 <= #iter && #iter <= len(in) && len(opts) == #iter && used == sumLens(in, #iter) && 0 <= used && used <= 281474976710656 * #iter
+//@     invariant buf == old(buf)[used : ] && used <= len(old(buf))
+//@     invariant (opts[0:0] == options[0:0] && cap(opts) == cap(options)) || fresh(opts)
+//@     invariant forall j int :: {opts[j].ID} 0 <= j && j < #iter ==> opts[j].ID == in[j].ID && opts[j].Value == old(buf)[sumLens(in, j) : sumLens(in, j + 1)] && 0 <= sumLens(in, j) && sumLens(in, j + 1) <= used && bytesEqOld(opts[j].Value, in[j].Value)
+//@     decreases len(in) - #iter
+//@   loop 1:
+//@     invariant idx <= i && i <= len(in) && used == sumLens(in, i) && 0 <= used && used <= 281474976710656 * i
+//@     invariant sumLens(in, i) >= sumLens(in, idx) + ite(i > idx, len(in[idx].Value), 0)
+//@     decreases len(in) - i
